@@ -643,7 +643,8 @@ def run(ctx):
             k = ids.index(f)
             warm[f].append(adopt(hs[k % len(hs)], f, fresh=True))
             plain[f].append(adopt(hs[(k + 1) % len(hs)], f, fresh=True, repeat=rep_plain, loop_ms=loop_ms))
-            if op in cold_ops or not ctx.quick():
+            derived = f.endswith("sp") or f.endswith("nc") or f.startswith("deg")
+            if (op in cold_ops and not (ctx.quick() and derived)) or not ctx.quick():
                 coldp.append((f, op, [adopt(hs[(k + 2) % len(hs)], f, fresh=True, cold=True)]))
     if missing:
         raise vlib.Infra("no hammer schedule generated for operations %s" % sorted(missing))
